@@ -201,6 +201,34 @@ def eof_elements(ctx, rng, reps):
                     judge_input(ctx, case, cfgd, cfg, cs.T, inp, (used, model.last_data_byte(mask)))
 
 
+def single_char_member_at_offset(ctx):
+    """A structure / union whose only member is a char array at an explicit offset (API): T(bytes) of every length
+    below the declared size raises, also the length that happens to equal the member's size (the constructor has a
+    shortcut that takes such a byte string for the member's value)."""
+    from dissect.cstruct import Field
+
+    for kind in ("struct", "union"):
+        for n, off in ((4, 2), (1, 3), (3, 3)):
+            cs = lib.cstruct()
+            make = cs._make_struct if kind == "struct" else cs._make_union
+            T = make("T", [Field("a", cs.char[n] if n > 1 else cs.char, offset=off)])
+            full = bytes(range(0x41, 0x41 + off + n))
+            ctx.cell("single-char-member-at-offset")
+            for k in range(0, off + n + 1):
+                ctx.evaluation(("char-at-offset", kind, n, off, k))
+                try:
+                    v = bytes(T(full[:k]).a)
+                except Exception as e:  # noqa: BLE001
+                    v = type(e).__name__
+                want = full[off:] if k == off + n else "EOFError"
+                if v != want:
+                    ctx.violation("fabricated", "value-returned-although-data-byte-missing",
+                                  {"kind": kind, "member": f"char[{n}] at offset {off}", "input_length": k, "got": repr(v),
+                                   "want": repr(want), "workload": "single-char-member-at-offset"})
+                else:
+                    ctx.event("char_at_offset_cuts")
+
+
 def direct_types(ctx, rng, reps):
     """Scalars, enums, arrays and unions parsed directly (not as a structure field): every cut point and a fault at
     every read call."""
@@ -286,6 +314,8 @@ def run(ctx):
         direct_types(ctx, ctx.rng("direct"), 2 if not ctx.thorough else 30)
     if ctx.shard % 8 == 3:
         eof_elements(ctx, ctx.rng("eof-elements"), 2 if not ctx.thorough else 20)
+    if ctx.shard == 4:
+        single_char_member_at_offset(ctx)
     for i in range(N_CASES[ctx.tier]):
         if ctx.out_of_time():
             break
@@ -299,6 +329,10 @@ def run(ctx):
 
 
 def replay(ctx, detail):
+    if detail.get("workload") == "single-char-member-at-offset":
+        print(detail)
+        single_char_member_at_offset(ctx)
+        return
     case = engine.case_from_detail(detail)
     cfgd = detail["cfg"]
     print("definition:\n" + case["text"])
